@@ -23,6 +23,8 @@ META = {
                   'ByteWriter.write_bytes and the BufferedOutput invariant (icontract)'),
 }
 META['required_obs']['thorough'] = META['required_obs']['quick'] + ['default-output-chunk']
+META['env'] = {'thorough': {'VF_RLIMIT_AS_GIB': 14}}      # one case writes with the default 2 x 4 GiB output buffer
+META['timeout_s'] = {'quick': 900, 'thorough': 3600}
 
 
 def cases(tier, seed):
@@ -152,6 +154,10 @@ def run_case(case):
                 bump('prior-shorter')
             if ocs == 'default':
                 w2, d2, s2, rep2 = write(sp, ics, None, prior, use_default=True)
+                if w2[0] != 'ok' and w2[1] == 'MemoryError':
+                    # the default buffer is 2 x 4 GiB; not getting the memory is a limit of this run, not a verdict
+                    bump('default-output-chunk-out-of-memory')
+                    continue
                 bump('default-output-chunk')
             else:
                 w2, d2, s2, rep2 = write(sp, ics, ocs, prior)
